@@ -31,7 +31,7 @@ C12PrivRole(nd)    == nd.a = "Priv" => PrivilegedRole(nd.args.v, nd.args.chain, 
 C12PrivElse(nd)    == nd.a = "Priv" => PrivilegedElsewhere(nd.args.chain, nd.args.sender, nd.res.ok)
 C12Kill(nd)        == nd.a = "Kill" => KillOnlyAdmin(nd.args.sender, nd.res.ok)
 
-ConfOwner(nd) == nd.a = "Own" /\ RefOk(nd) /\ OwnerPredicted(Row(nd.args.msg), nd.args.holder, nd.args.signer) =>
+ConfOwner(nd) == nd.a = "Own" /\ RefOk(nd) /\ OwnerPredicted(Row(nd.args.msg), nd.args.holder, nd.args.signer, nd.args.amt, nd.args.scope) =>
                    nd.res.ok = OwnerStep(Pos0(nd.args.holder), Row(nd.args.msg), nd.args.signer, TRUE).ok
 ConfPriv(nd)  == nd.a = "Priv" /\ RefOk(nd) => nd.res.ok = ImplPrivOk(nd.args.v, nd.args.chain, nd.args.sender)
 ConfKill(nd)  == nd.a = "Kill" => nd.res.ok = ImplKillOk(nd.args.sender)
@@ -58,7 +58,7 @@ C14AucPrice(nd)   == nd.a = "Auc" /\ AucPriceReq(nd.args.hook, Range(nd.args.off
 ConfAuc(nd)       == nd.a = "Auc" /\ nd.args.ref > 0 /\ AucMoved(Log[nd.args.ref]) =>
                        AucMoved(nd) = ~ImplAucFrozen(nd.args.hook, Range(nd.args.off))
 
-ConfCtl(nd)  == nd.a = "Ctl" /\ RefOk(nd) => nd.res.ok = ImplOk(RowOfN(nd), nd.args.prod, CtlOfN(nd))
+ConfCtl(nd)  == nd.a = "Ctl" /\ RefOk(nd) /\ ~ImplUnpredicted(RowOfN(nd), CtlOfN(nd), nd.args.pm) => nd.res.ok = ImplOk(RowOfN(nd), nd.args.prod, CtlOfN(nd))
 HookActed(nd) == ~HookIdle(nd)
 ConfHook(nd) == nd.a = "Hook" /\ nd.args.ref > 0 /\ HookActed(Log[nd.args.ref]) =>
                   HookActed(nd) = ~ImplHookIdle(nd.args.hook, HookCtl(nd))
@@ -99,6 +99,10 @@ Cnt(P(_)) == Cardinality({i \in 1..NLog : P(Nd(i))})
 IsOwn(nd)        == nd.a = "Own"
 OwnForeign(nd)   == nd.a = "Own" /\ nd.args.signer # nd.args.holder /\ Row(nd.args.msg).own = "id" /\ RefOk(nd)   \* foreign attempt on a position its owner can move
 OwnSignerKeyed(nd) == nd.a = "Own" /\ nd.args.signer # nd.args.holder /\ Row(nd.args.msg).own = "signer" /\ RefOk(nd)
+OwnForeignWhole(nd) == OwnForeign(nd) /\ nd.args.amt = "whole"       \* foreign attempt naming exactly the whole balance, which the holder himself can move
+OwnForeignOver(nd)  == nd.a = "Own" /\ nd.args.signer # nd.args.holder /\ nd.args.amt = "over"
+OwnOtherScope(nd)   == nd.a = "Own" /\ nd.args.signer # nd.args.holder /\ nd.args.scope # "home"
+OwnScopeWitness(nd) == nd.a = "Own" /\ nd.args.signer = nd.args.holder /\ nd.args.scope # "home" /\ nd.res.ok /\ ~Same(nd)   \* the holder really has orders in the other pair / app
 OwnOwnerOk(nd)   == nd.a = "Own" /\ nd.args.signer = nd.args.holder /\ nd.res.ok /\ ~Same(nd)
 PrivGuarded(nd)  == nd.a = "Priv" /\ nd.args.chain \in MainTest /\ RefOk(nd)
 PrivAccepted(nd) == nd.a = "Priv" /\ nd.args.chain \in MainTest /\ nd.res.ok /\ ~Same(nd)
@@ -110,6 +114,9 @@ CtlShutdown(nd)  == nd.a = "Ctl" /\ ShutdownReq(RowOfN(nd), CtlOfN(nd)) /\ RefOk
 CtlCoolOff(nd)   == nd.a = "Ctl" /\ CoolOffReq(RowOfN(nd), CtlOfN(nd)) /\ RefOk(nd)
 CtlCoolWitness(nd) == nd.a = "Ctl" /\ nd.args.esm = "cool" /\ ~nd.args.breaker /\ RowOfN(nd).wdr /\ nd.res.ok   \* withdrawal inside the cool-off succeeded
 CtlPrice(nd)     == nd.a = "Ctl" /\ PriceReq(RowOfN(nd), nd.args.prod, CtlOfN(nd)) /\ ~BreakerReq(RowOfN(nd), CtlOfN(nd)) /\ RefOk(nd)
+CtlNoSnapshot(nd)   == nd.a = "Ctl" /\ nd.args.esm \in NoSnapshot /\ ShutdownReq(RowOfN(nd), CtlOfN(nd)) /\ RefOk(nd)
+CtlPriceInactive(nd) == CtlPrice(nd) /\ nd.args.pm = "inactive"
+CtlPriceMissingM(nd) == CtlPrice(nd) /\ nd.args.pm = "missing"
 CtlRefOk(nd)     == nd.a = "Ctl" /\ nd.args.ref = nd.id /\ nd.res.ok
 CtlRef(nd)       == nd.a = "Ctl" /\ nd.args.ref = nd.id
 CtlFree(nd)      == nd.a = "Ctl" /\ ~MustReject(RowOfN(nd), nd.args.prod, CtlOfN(nd)) /\ nd.res.ok
@@ -134,6 +141,9 @@ HookWitnessed == {Nd(i).args.hook : i \in {j \in 1..NLog : HookRefActs(Nd(j))}}
 
 Stats == PrintT(<<"STATS", [nodes |-> NLog, states |-> Cnt(IsState), own |-> Cnt(IsOwn),
            ownForeign |-> Cnt(OwnForeign), ownSignerKeyed |-> Cnt(OwnSignerKeyed), ownOwnerOk |-> Cnt(OwnOwnerOk),
+           ownForeignWhole |-> Cnt(OwnForeignWhole), ownForeignOver |-> Cnt(OwnForeignOver), ownOtherScope |-> Cnt(OwnOtherScope),
+           ownScopeWitness |-> Cnt(OwnScopeWitness), ctlNoSnapshot |-> Cnt(CtlNoSnapshot),
+           ctlPriceInactive |-> Cnt(CtlPriceInactive), ctlPriceMissing |-> Cnt(CtlPriceMissingM),
            privGuarded |-> Cnt(PrivGuarded), privAccepted |-> Cnt(PrivAccepted), privElsewhere |-> Cnt(PrivElse),
            killRejected |-> Cnt(KillRej), killAccepted |-> Cnt(KillAcc),
            ctlBreaker |-> Cnt(CtlBreaker), ctlShutdown |-> Cnt(CtlShutdown), ctlCoolOff |-> Cnt(CtlCoolOff),
